@@ -245,7 +245,24 @@ thread_local! {
 	static LAST_PANIC: std::cell::RefCell<Option<String>> = const { std::cell::RefCell::new(None) };
 }
 
+thread_local! {
+	/// Panics raised on this thread that no `catch_unwind` of the harness has caught yet.
+	static PANIC_DEPTH: std::cell::Cell<u32> = const { std::cell::Cell::new(0) };
+}
+
+/// Where the run writes (verif dir), seed, tier name, sanitizer pass: what the panic hook needs to
+/// leave a verdict behind when the process is about to abort.
+pub static RUN_INFO: std::sync::OnceLock<(std::path::PathBuf, u64, String, bool)> = std::sync::OnceLock::new();
+
+fn in_library(m: &str) -> bool {
+	let repo = std::env::var("JSV_REPO_DIR").unwrap_or_else(|_| "/repo".into());
+	m.contains(&format!(" at {}/src/", repo.trim_end_matches('/'))) || m.contains("/json-number-")
+}
+
 /// Installs a panic hook that records the message/location instead of printing.
+/// A second panic on a thread that is still unwinding from the first one (a destructor that panics)
+/// aborts the process; the hook is the last code that runs, so it leaves the verdict: VIOLATION when
+/// one of the two panics was raised in the library's own source, INCONCLUSIVE otherwise.
 pub fn install_panic_hook() {
 	std::panic::set_hook(Box::new(|info| {
 		let msg = if let Some(s) = info.payload().downcast_ref::<&str>() {
@@ -259,7 +276,39 @@ pub fn install_panic_hook() {
 			.location()
 			.map(|l| format!("{}:{}", l.file(), l.line()))
 			.unwrap_or_default();
-		LAST_PANIC.with(|p| *p.borrow_mut() = Some(format!("{} at {}", msg, loc)));
+		let this = format!("{} at {}", msg, loc);
+		let depth = PANIC_DEPTH.with(|d| {
+			let v = d.get();
+			d.set(v + 1);
+			v
+		});
+		if depth >= 1 {
+			let first = LAST_PANIC.with(|p| p.borrow().clone()).unwrap_or_default();
+			let id = CURRENT_ID.get().cloned().unwrap_or_else(|| "C00".into());
+			if in_library(&first) || in_library(&this) {
+				let what = format!("the library panicked while the thread was unwinding from another panic (the process aborts): first `{}`, then `{}`", first, this);
+				let mut path = std::path::PathBuf::from("(no replay directory)");
+				if let Some((dir, seed, tier, san)) = RUN_INFO.get() {
+					let rd = dir.join("replays");
+					let _ = std::fs::create_dir_all(&rd);
+					path = rd.join(format!("{}-{:016x}.json", id, fnv(what.as_bytes())));
+					let body = serde_json::json!({"property": id, "seed": seed, "tier": tier, "signature": format!("{}:library-abort", id), "what": what, "case": {"sub": "library-panic", "message": what}});
+					let _ = std::fs::write(&path, serde_json::to_string_pretty(&body).unwrap_or_default());
+					if !*san {
+						let ev = serde_json::json!({"property_id": id, "tier": tier, "seed": seed, "level": "exploration", "coverage": {"evaluations": 0, "distinct_nontrivial": 0, "rule": "the run ended in the panic hook: the library panicked twice on one thread (abort)", "violation_signatures": [format!("{}:library-abort", id)], "notes": [what]}, "assumptions": [], "wall_s": 0.0, "violations": 1});
+						let _ = std::fs::create_dir_all(dir.join("evidence"));
+						let _ = std::fs::write(dir.join("evidence").join(format!("{}.json", id)), serde_json::to_string_pretty(&ev).unwrap_or_default());
+					}
+				}
+				println!("  violation [{}:library-abort]: {}", id, what);
+				println!("VIOLATION property={} replay={}", id, path.display());
+				std::process::exit(1);
+			} else {
+				println!("INCONCLUSIVE property={} the harness panicked twice on one thread: first `{}`, then `{}`", id, first, this);
+				std::process::exit(2);
+			}
+		}
+		LAST_PANIC.with(|p| *p.borrow_mut() = Some(this));
 	}));
 }
 
@@ -267,9 +316,12 @@ pub fn install_panic_hook() {
 pub fn guard<T>(f: impl FnOnce() -> T) -> Result<T, String> {
 	match catch_unwind(AssertUnwindSafe(f)) {
 		Ok(v) => Ok(v),
-		Err(_) => Err(LAST_PANIC
-			.with(|p| p.borrow_mut().take())
-			.unwrap_or_else(|| "panic".to_string())),
+		Err(_) => {
+			PANIC_DEPTH.with(|d| d.set(0));
+			Err(LAST_PANIC
+				.with(|p| p.borrow_mut().take())
+				.unwrap_or_else(|| "panic".to_string()))
+		}
 	}
 }
 
@@ -299,16 +351,16 @@ where
 				let r = match catch_unwind(AssertUnwindSafe(|| f(i))) {
 					Ok(r) => r,
 					Err(_) => {
+						PANIC_DEPTH.with(|d| d.set(0));
 						let mut r = Report::new();
 						let m = LAST_PANIC
 							.with(|p| p.borrow_mut().take())
 							.unwrap_or_else(|| "panic".into());
 						// a panic raised inside the library's own source (outside any guarded call of a monitor)
 						// is the library panicking, not the harness
-						let repo = std::env::var("JSV_REPO_DIR").unwrap_or_else(|_| "/repo".into());
 						// (or inside json-number, the number type of the library, which the harness itself only
 						// reaches through the library)
-						if m.contains(&format!(" at {}/src/", repo.trim_end_matches('/'))) || m.contains("/json-number-") {
+						if in_library(&m) {
 							let id = CURRENT_ID.get().cloned().unwrap_or_else(|| "C00".into());
 							r.evaluations += 1;
 							r.violation(format!("{}:library-panic", id), format!("the library panicked during the workload of shard {}: {}", i, m), serde_json::json!({"sub": "library-panic", "message": m}));
